@@ -385,6 +385,20 @@ func vpAssemble(code []byte, k []bool, jt []uint64, z int) []byte {
 	return b.Bytes()
 }
 
+// vpAssembleGen is vpAssemble plus, for entry widths above 8 octets, sometimes a non-zero octet
+// above the 64-bit part of one entry (the entry then denotes a number >= 2^64, which is no
+// basic-block start whatever its low octets say).
+func vpAssembleGen(rt *rapid.T, code []byte, k []bool, jt []uint64, z int) []byte {
+	b := vpAssemble(code, k, jt, z)
+	if z > 8 && len(jt) > 0 && rapid.Bool().Draw(rt, "wide_entry_high_octet") {
+		idx := rapid.IntRange(0, len(jt)-1).Draw(rt, "wide_entry")
+		oct := rapid.IntRange(8, z-1).Draw(rt, "wide_octet")
+		off := len(vpNatural(uint64(len(jt)))) + 1 + len(vpNatural(uint64(len(code)))) + idx*z + oct
+		b[off] = byte(rapid.IntRange(1, 255).Draw(rt, "wide_value"))
+	}
+	return b
+}
+
 // ---------- generators ----------
 
 var vpValidOps = func() []byte {
@@ -679,8 +693,8 @@ func vpGenProgram(rt *rapid.T, withSbrk bool, maxInstr int) (code []byte, k []bo
 	total := pos
 	// jump table
 	z = rapid.SampledFrom([]int{1, 2, 2, 4, 4, 8, 3, 0}).Draw(rt, "z")
-	if rapid.IntRange(0, 39).Draw(rt, "zbig") == 0 {
-		z = rapid.IntRange(9, 12).Draw(rt, "zb")
+	if rapid.IntRange(0, 19).Draw(rt, "zbig") == 0 {
+		z = rapid.SampledFrom([]int{9, 9, 10, 12, 16}).Draw(rt, "zb")
 	}
 	nj := rapid.IntRange(0, 6).Draw(rt, "nj")
 	for i := 0; i < nj; i++ {
